@@ -95,6 +95,12 @@ fn build(p: &Program, ctx: &mut Ctx) {
             ctx.emit(p, || format!("function {f}: declare an extra return type (copy of {r})"), |q: &mut Program| { let t = q.funcs[f].signature.ret_types[r].clone(); q.funcs[f].signature.ret_types.push(t); });
             if r + 1 < p.funcs[f].signature.ret_types.len() { ctx.emit(p, || format!("function {f}: swap return types {r},{}", r + 1), |q: &mut Program| { q.funcs[f].signature.ret_types.swap(r, r + 1); }); }
         }
+        for a in 0..p.funcs[f].signature.param_types.len() {
+            ctx.emit(p, || format!("function {f}: signature param type {a} := undeclared type id"), |q: &mut Program| { q.funcs[f].signature.param_types[a] = ConcreteTypeId::new(424242); });
+        }
+        for r in 0..p.funcs[f].signature.ret_types.len() {
+            ctx.emit(p, || format!("function {f}: return type {r} := undeclared type id"), |q: &mut Program| { q.funcs[f].signature.ret_types[r] = ConcreteTypeId::new(424242); });
+        }
         for a in 0..p.funcs[f].params.len() {
             for t in 0..p.type_declarations.len().min(8) { ctx.emit(p, || format!("function {f}: param {a} retyped to type {t}"), |q: &mut Program| { q.funcs[f].params[a].ty = p.type_declarations[t].id.clone(); q.funcs[f].signature.param_types[a] = p.type_declarations[t].id.clone(); }); }
         }
